@@ -62,6 +62,16 @@ def _hw2(box, cpt):
         return BIG
 
 
+def _same_domain(a, b):
+    """deep equality of the user's domain object before / after (lists, tuples or arrays), type included"""
+    import numpy as np
+    if type(a) is not type(b):
+        return False
+    if isinstance(a, np.ndarray):
+        return a.shape == b.shape and a.dtype == b.dtype and bool(np.array_equal(a, b))
+    return a == b
+
+
 def capint(x):
     """integer-valued float (np.ceil result) -> int capped at BIG"""
     try:
@@ -494,7 +504,7 @@ class SessionRec:
         return pt
 
     def end(self, domain_before, domain_now):
-        self.events.append({"k": "end", "dom_same": 1 if domain_before == domain_now else 0})
+        self.events.append({"k": "end", "dom_same": 1 if _same_domain(domain_before, domain_now) else 0})
 
     # -- encoding -----------------------------------------------------------------
     def finalize(self, extra_boxes=()):
